@@ -22,5 +22,7 @@ def run(prog, rep, tier):
     apply(rep, "A4", "negation keeps fail", r_pred.a4(prog), 4)
     apply(rep, "A4b", "three-valued and/or keep fail absorbing", r_pred.a4b(prog), 2)
     apply(rep, "A5", "sub-expressions are fed a copy", r_pred.a5(prog), 10)
+    import r_pure
+    apply(rep, "Q4c", "stack copies are deep: a copy never aliases storage that `add` mutates in place", r_pure.q4c(prog), 3)
     apply(rep, "A6", "let/infix/capture yield the outer stack, never the sub-expression's", r_pred.a6(prog), 2)
     maybe_mutants("C04", rep, tier)
